@@ -288,10 +288,15 @@ func c03Impl(c *Ctx, im setImpl) {
 				// is that constant
 				ret := p.Rets[0]
 				if !ret.IsConst("true") && !ret.IsConst("false") {
-					isHas := (ret.Op == "call" && strings.HasSuffix(ret.Sym, "(Set).Has") && ret.Args[0].Key() == s.Key() && ret.Args[1].Key() == v.Key()) ||
-						(ret.Op == "extract" && ret.N == 1 && ret.Args[0].Op == "lookup" && ret.Args[0].Args[0].Key() == s.Key() && ret.Args[0].Args[1].Key() == v.Key())
+					// ... or its negation (`added := !s.Has(value) ... return added`)
+					inner, neg := ret, false
+					for inner.Op == "un" && inner.Sym == "!" && len(inner.Args) == 1 {
+						inner, neg = inner.Args[0], !neg
+					}
+					isHas := (inner.Op == "call" && strings.HasSuffix(inner.Sym, "(Set).Has") && inner.Args[0].Key() == s.Key() && inner.Args[1].Key() == v.Key()) ||
+						(inner.Op == "extract" && inner.N == 1 && inner.Args[0].Op == "lookup" && inner.Args[0].Args[0].Key() == s.Key() && inner.Args[0].Args[1].Key() == v.Key())
 					if isHas && member != "" {
-						ret = &Term{Op: "const", Sym: map[bool]string{true: "true", false: "false"}[member == "yes"], Typ: ret.Typ}
+						ret = &Term{Op: "const", Sym: map[bool]string{true: "true", false: "false"}[(member == "yes") != neg], Typ: ret.Typ}
 					}
 				}
 				p = &Path{End: p.End, Rets: []*Term{ret}, Conds: p.Conds, Events: p.Events}
